@@ -63,17 +63,16 @@ WithinBoth(U, A, B) == \A dom \in Doms : \A n \in 1..Len(dom) : Matches(U, dom, 
 
 \* --- @extend: crediting --------------------------------------------------------------------
 \* exts: sequence of [extender (selector list), target (a class)]; an element matching an extender counts as having the target
+MaxN(a, b) == IF a > b THEN a ELSE b
 \* one round of crediting from a given assignment
 CreditStep(dom, exts, prev) ==
   [n \in 1..Len(dom) |-> prev[n] \cup {exts[i].target : i \in {j \in 1..Len(exts) : MatchList(exts[j].extender, dom, n, prev)}}]
-\* four rounds reach the fixpoint on DOMs of <= 4 nodes with <= 3 extensions in all generated sheets (chains and cycles included)
-Credit(dom, exts, k) ==
-  LET c0 == Native(dom)
-      c1 == CreditStep(dom, exts, c0)
-      c2 == IF c1 = c0 \/ k <= 1 THEN c1 ELSE CreditStep(dom, exts, c1)      \* stop as soon as a round adds nothing
-      c3 == IF c2 = c1 \/ k <= 2 THEN c2 ELSE CreditStep(dom, exts, c2)
-      c4 == IF c3 = c2 \/ k <= 3 THEN c3 ELSE CreditStep(dom, exts, c3)
-  IN c4
+\* iterated until a round adds nothing; every productive round gives some node one more of the target classes, so
+\* nodes x targets rounds always suffice (k is that bound, passed by the caller or larger)
+RECURSIVE CreditFix(_, _, _, _)
+CreditFix(dom, exts, cur, k) ==
+  LET nxt == CreditStep(dom, exts, cur) IN IF nxt = cur \/ k <= 0 THEN cur ELSE CreditFix(dom, exts, nxt, k - 1)
+Credit(dom, exts, k) == CreditFix(dom, exts, Native(dom), MaxN(k, Len(dom) * Len(exts)))
 \* DOM universe used to judge @extend: as Doms, but four-node shapes carry elements from a smaller alphabet
 TinyEls == {[type |-> "a", cls |-> {}], [type |-> "a", cls |-> {"x"}], [type |-> "b", cls |-> {"y"}], [type |-> "b", cls |-> {}]}
 ExtDoms == UNION { IF Len(sh) < 3
